@@ -24,6 +24,7 @@ type httpListener struct {
 	inflight int
 	closing  bool
 	closed   bool
+	late     map[string]bool // connections (remote addresses) that already sent their one request after Shutdown began
 }
 
 // ErrRefused is what a client gets when nothing listens on the address (any more).
@@ -120,9 +121,23 @@ func Deliver(addr string, w http.ResponseWriter, req *http.Request) error {
 		return ErrRefused
 	}
 	l.mu.Lock()
-	if l.closing || l.closed {
+	if l.closed {
 		l.mu.Unlock()
 		return ErrRefused
+	}
+	if l.closing {
+		// Shutdown closes the listener and the idle connections, and waits for the others. A connection the client opened
+		// before (new, or idle with its next request already on the way) still gets that one request handled: the
+		// connections are the remote addresses, each has one such request
+		if l.late == nil {
+			l.late = map[string]bool{}
+		}
+		if l.late[req.RemoteAddr] {
+			l.mu.Unlock()
+			return ErrRefused
+		}
+		l.late[req.RemoteAddr] = true
+		Probe("request-during-shutdown")
 	}
 	l.inflight++
 	l.mu.Unlock()
